@@ -348,3 +348,132 @@ Proof.
   intros w seg h stop hf sy n store r Hok H. unfold handle in H.
   apply handle_segs_inv in H; [|exact Hok]. rewrite concat_segments in H. exact H.
 Qed.
+
+(* ---------------------------------------------------------------------------------- *)
+(* Part 3: a fault-free fetch / walk / handle succeeds from every state SyOk allows     *)
+
+Definition good (w : world) (sy : syncer) (a : nat) : bool := alive w a && pin_ok (sy_pinned sy) a.
+Definition HasGood (w : world) (sy : syncer) : Prop := exists a, In a (sy_urls sy) /\ good w sy a = true.
+Definition clean (n : net) : Prop := n_script n = [] /\ n_cancelled n = false.
+
+Lemma exchange_at_bad : forall w sy a np r n,
+  good w sy a = false -> clean n ->
+  exists n', exchange w (sy_pinned sy) a np r n = (XDoErr false, n') /\ clean n'.
+Proof.
+  intros w sy a np r n Hg [Hs Hc]. unfold exchange. rewrite Hc.
+  unfold good in Hg. destruct (pin_ok (sy_pinned sy) a); simpl.
+  - rewrite andb_true_r in Hg. rewrite Hg. simpl. eexists. split; [reflexivity|]. split; simpl; auto.
+  - exists n. split; [reflexivity|]. split; auto.
+Qed.
+
+Lemma exchange_at_good : forall w sy a np r n,
+  good w sy a = true -> clean n ->
+  exists n', exchange w (sy_pinned sy) a np r n = (genuine w np, n') /\ clean n'.
+Proof.
+  intros w sy a np r n Hg [Hs Hc]. unfold exchange. rewrite Hc.
+  unfold good in Hg. apply andb_true_iff in Hg. destruct Hg as [Ha Hp]. rewrite Ha, Hp. simpl.
+  rewrite Hs. simpl. eexists. split; [reflexivity|]. split; reflexivity.
+Qed.
+
+Lemma first_split : forall (f : nat -> bool) l,
+  (exists a, In a l /\ f a = true) ->
+  exists l1 a l2, l = l1 ++ a :: l2 /\ (forall b, In b l1 -> f b = false) /\ f a = true.
+Proof.
+  intros f l. induction l as [|x l IH]; intros [a [Hi Hf]]; [destruct Hi|].
+  destruct (f x) eqn:Hx.
+  - exists [], x, l. simpl. repeat split; auto. intros b [].
+  - destruct Hi as [Hi|Hi]; [subst; congruence|].
+    destruct IH as [l1 [b [l2 [He [Hb Hfb]]]]]; [eauto|].
+    exists (x :: l1), b, l2. subst l. simpl. repeat split; auto.
+    intros c [Hc|Hc]; [subst; assumption | auto].
+Qed.
+
+Lemma good_failover : forall w sy a, good w (failover fx_fixed sy) a = good w sy a.
+Proof. intros. unfold good. destruct (failover_fields fx_fixed sy) as [_ [Hp _]]. rewrite Hp. reflexivity. Qed.
+
+Lemma fetch_loop_clean : forall w r l1 fuel sy n d tried a l2,
+  wf_world w -> SyOk w sy -> clean n ->
+  sy_urls sy = l1 ++ a :: l2 ->
+  (forall b, In b l1 -> good w sy b = false) -> good w sy a = true ->
+  tried <= length l2 -> 2 * length l1 + 2 <= fuel ->
+  exists sy' n', fetch_loop fx_fixed w fuel r sy n d false tried = (FetchOk, sy', n') /\ clean n'.
+Proof.
+  intros w r l1. induction l1 as [|b l1 IH]; intros fuel sy n d tried a l2 Hw Hok Hc Hu Hbad Hgood Ht Hf.
+  - (* the address in use answers *)
+    simpl in Hu. destruct fuel as [|[|fuel]]; [simpl in Hf; lia | simpl in Hf; lia |].
+    cbn [fetch_loop]. rewrite Hu. cbn [hd]. rewrite orb_false_r.
+    destruct (exchange_at_good w sy a (sy_nopath sy) r n Hgood Hc) as [n1 [Hx Hc1]]. rewrite Hx.
+    unfold genuine. destruct (w_legacy w) eqn:Hl.
+    + destruct (sy_nopath sy) eqn:Hn.
+      * exists (commit_nopath sy false), n1. split; [reflexivity | exact Hc1].
+      * cbn [N.eqb Pos.eqb orb]. rewrite (so_pl _ _ Hok Hl). cbn [negb andb fx_nopath fx_fixed].
+
+        destruct (exchange_at_good w sy a true r n1 Hgood Hc1) as [n2 [Hx2 Hc2]]. rewrite Hx2.
+        unfold genuine. rewrite Hl. eexists _, n2. split; [reflexivity | exact Hc2].
+    + destruct (sy_nopath sy) eqn:Hn.
+      * rewrite (so_np _ _ Hok Hn) in Hl. discriminate.
+      * eexists _, n1. split; [reflexivity | exact Hc1].
+  - (* the address in use does not: client.Do fails, move on *)
+    destruct fuel as [|fuel]; [simpl in Hf; lia|].
+    cbn [fetch_loop]. rewrite Hu. cbn [hd app].
+    assert (Hb : good w sy b = false) by (apply Hbad; left; reflexivity).
+    destruct (exchange_at_bad w sy b (sy_nopath sy || false) r n Hb Hc) as [n1 [Hx Hc1]]. rewrite Hx.
+    assert (Hcf : can_failover fx_fixed sy tried = true).
+    { unfold can_failover. cbn [fx_rotate fx_fixed]. rewrite Hu. apply Nat.ltb_lt.
+      simpl. rewrite app_length. simpl. lia. }
+    rewrite Hcf.
+    apply (IH fuel (failover fx_fixed sy) n1 false (S tried) a (l2 ++ [b])); auto.
+    + apply SyOk_failover. exact Hok.
+    + unfold failover. rewrite Hu. simpl. rewrite <- app_assoc. reflexivity.
+    + intros c Hc'. rewrite good_failover. apply Hbad. right. exact Hc'.
+    + rewrite good_failover. exact Hgood.
+    + rewrite app_length. simpl. lia.
+    + simpl in Hf. lia.
+Qed.
+
+Lemma fetch_clean : forall w r sy n,
+  wf_world w -> SyOk w sy -> clean n -> HasGood w sy ->
+  exists sy' n', fetch fx_fixed w r sy n = (FetchOk, sy', n') /\ clean n'.
+Proof.
+  intros w r sy n Hw Hok Hc Hg. unfold fetch.
+  destruct (first_split (good w sy) (sy_urls sy) Hg) as [l1 [a [l2 [Hu [Hb Ha]]]]].
+  eapply fetch_loop_clean; eauto; [lia|].
+  unfold fetch_fuel. rewrite Hu, app_length. simpl. lia.
+Qed.
+
+Lemma HasGood_transfer : forall w sy sy',
+  SyOk w sy -> SyOk w sy' -> sy_addrs sy' = sy_addrs sy -> sy_pinned sy' = sy_pinned sy ->
+  HasGood w sy -> HasGood w sy'.
+Proof.
+  intros w sy sy' Hok Hok' Ha Hp [a [Hi Hg]]. exists a. split.
+  - apply (so_el _ _ Hok'). rewrite Ha. apply (so_el _ _ Hok). exact Hi.
+  - unfold good in *. rewrite Hp. exact Hg.
+Qed.
+
+Lemma walk_clean : forall w todo sy n store,
+  wf_world w -> SyOk w sy -> clean n -> HasGood w sy ->
+  exists sy' n' store', walk fx_fixed w todo sy n store = (true, sy', n', store') /\ clean n'.
+Proof.
+  intros w todo. induction todo as [|p rest IH]; intros sy n store Hw Hok Hc Hg; simpl.
+  - exists sy, n, store. split; [reflexivity | exact Hc].
+  - destruct (mem p store); [apply IH; auto|].
+    destruct (fetch_clean w (Blk p) sy n Hw Hok Hc Hg) as [sy1 [n1 [Hf Hc1]]]. rewrite Hf.
+    destruct (fetch_inv _ _ _ _ _ _ _ Hok Hf) as [F1 [F2 [F3 _]]].
+    apply IH; [exact Hw | exact F1 | exact Hc1 | apply (HasGood_transfer w sy sy1); assumption].
+Qed.
+
+Lemma handle_segs_clean : forall w sg segs sy n store hooks,
+  wf_world w -> SyOk w sy -> clean n -> HasGood w sy ->
+  h_ok (handle_segs fx_fixed w sg segs None sy n store hooks) = true.
+Proof.
+  intros w sg segs. induction segs as [|s rest IH]; intros sy n store hooks Hw Hok Hc Hg; simpl; [reflexivity|].
+  destruct (walk_clean w s sy n store Hw Hok Hc Hg) as [sy1 [n1 [st1 [Hwk Hc1]]]]. rewrite Hwk.
+  rewrite andb_false_r.
+  destruct (walk_inv _ _ _ _ _ _ _ _ _ Hok Hwk) as [W1 [W2 [W3 _]]].
+  apply IH; [exact Hw | exact W1 | exact Hc1 | apply (HasGood_transfer w sy sy1); assumption].
+Qed.
+
+Lemma handle_clean : forall w seg h stop sy n store,
+  wf_world w -> SyOk w sy -> clean n -> HasGood w sy ->
+  h_ok (handle fx_fixed w seg h stop None sy n store) = true.
+Proof. intros. unfold handle. apply handle_segs_clean; auto. Qed.
